@@ -346,6 +346,37 @@ TEMPLATES = [
          lines=["S\ta\t*", "S\tb\t*", "L\ta\t+\tb\t+\t1M", "L\tb\t+\ta\t+\t1M", "P\tp\ta+,b+,a+,b+\t1M,1M,1M"],
          slots=[(5, 3, ["a+,b+,a+,b+", "a+,b+,a+", "b+,a+,b+,a+", "a+,b+", "a+,z+,a+,b+"], 0),
                 (5, 4, ["1M,1M,1M", "*", "1M,1M", "1M,1M,1M,1M,1M"], 0)]),
+    # circular paths (as many overlaps as segments): pairwise different overlaps, a link for every junction; the
+    # closing junction's overlap, a link's overlap, the rotation of the segments may deviate (near misses)
+    dict(ver="gfa1", dia="standard", maxdev=1, orders="all",
+         lines=["S\ta\t*", "S\tb\t*", "L\ta\t+\tb\t+\t4M", "L\tb\t+\ta\t+\t6M", "P\tq\ta+,b+\t4M,6M"],
+         slots=[(5, 3, ["a+,b+", "b+,a+", "a+,b+,a+", "a+"], 0),
+                (5, 4, ["4M,6M", "6M,4M", "4M,4M", "4M", "4M,6M,4M", "*", "04M,6M", "4M,3M3M"], 0),
+                (4, 6, ["6M", "4M", "4M1I", "*"], 0), (3, 6, ["4M", "6M"], 0)]),
+    dict(ver="gfa1", dia="standard", maxdev=2,
+         lines=["S\ta\t*", "S\tb\t*", "S\tc\t*", "L\ta\t+\tb\t+\t1M", "L\tb\t+\tc\t+\t2M", "L\tc\t+\ta\t+\t3M",
+                "P\tp\ta+,b+,c+\t1M,2M,3M"],
+         slots=[(7, 3, ["a+,b+,c+", "b+,c+,a+", "c+,a+,b+", "a+,b+", "a+,c+,b+"], 0),
+                (7, 4, ["1M,2M,3M", "1M,2M,2M", "1M,2M", "2M,3M,1M", "3M,1M,2M", "1M,2M,3M,1M", "*", "1M,2M,1M"], 0),
+                (6, 6, ["3M", "2M", "1M", "*"], 0), (5, 6, ["2M", "3M"], 0), (6, 4, ["a", "b"], 0)],
+         orders=[[1, 2, 3, 4, 5, 6, 7], [1, 2, 3, 7, 4, 5, 6], [7, 4, 5, 6, 1, 2, 3], [7, 6, 5, 4, 3, 2, 1], [4, 5, 7, 6, 1, 2, 3],
+                 [6, 7, 1, 2, 3, 4, 5], [1, 2, 3, 4, 7, 5, 6], [3, 6, 2, 5, 7, 1, 4]]),
+    # a circular path over one segment (self link)
+    dict(ver="gfa1", dia="standard", maxdev=2, orders="all",
+         lines=["S\ta\t*", "L\ta\t+\ta\t+\t5M", "P\tr\ta+\t5M"],
+         slots=[(3, 4, ["5M", "4M", "*", "5M,5M"], 0), (2, 6, ["5M", "*", "4M"], 0), (3, 3, ["a+", "a+,a+", "a-"], 0)]),
+    # a character that some text functions treat as a line boundary (lone CR, VT, FF, FS, GS, RS, NEL, LS, PS; US and
+    # a no-break space for contrast) between two texts that are each a valid line: ONE line for the grammar, whose
+    # field contains a character no datatype allows
+    dict(ver="gfa1", dia="standard", maxdev=1,
+         lines=["S\ta\t*", "S\tb\t*\x0cS\tc\t*", "L\ta\t+\tb\t+\t*\txx:Z:one\x0cS\td\t*"],
+         slots=[(2, 3, ["*" + ch + "S" for ch in "\x0c\r\x0b\x1c\x1d\x1e\x85\u2028\u2029\x1f\xa0"], 0),
+                (3, 7, ["xx:Z:one" + ch + "S" for ch in "\x0c\r\x0b\x1c\x1d\x1e\x85\u2028\u2029\x1f\xa0"], 0)],
+         orders=[[1, 2, 3], [3, 2, 1]]),
+    dict(ver="gfa2", dia="standard", maxdev=1,
+         lines=["S\ta\t4\t*", "S\tb\t4\tACGT\x0cS\tc\t4\t*", "# comment\x0cS\td\t4\t*"],
+         slots=[(2, 4, ["ACGT" + ch + "S" for ch in "\x0c\r\x0b\x1c\x1d\x1e\x85\u2028\u2029\x1f\xa0"], 0)],
+         orders=[[1, 2, 3], [2, 3, 1]]),
     # rGFA restrictions
     dict(ver="gfa1", dia="rgfa", maxdev=2,
          lines=["S\ts1\tACG\tSN:Z:chr1\tSO:i:0\tSR:i:0", "S\ts2\t*\tSN:Z:chr1\tSO:i:3\tSR:i:0",
@@ -457,28 +488,44 @@ HIST_DOCS = [
                                      "G\tg\ta+\tb-\t10\t5", "F\ta\tx+\t0\t2\t0\t2\t*", "F\ta\tx-\t1\t3\t0\t2\t*",
                                      "F\tb\ty+\t0\t2\t0\t2\t*", "O\to\ta+ e1+ b+", "U\tu\ta e1 g o",
                                      "X\tcustom\t1\txx:i:1", "# c"]),
+    # identifiers that are the character `*` where it is NOT a placeholder: the ID tag of links / containments,
+    # a GFA2 segment, (at level 0) a GFA1 segment and a path; lines that depend on them
+    dict(ver="gfa1", seg="a", lines=["S\ta\tACGT", "S\tb\tACGT", "S\tc\tACGT", "L\ta\t+\tb\t+\t2M\tID:Z:*",
+                                     "L\tb\t+\tc\t-\t*", "C\ta\t+\tc\t+\t0\t4M\tID:Z:*", "P\tp\ta+,b+\t2M"]),
+    dict(ver="gfa2", seg="b", lines=["S\t*\t4\tACGT", "S\tb\t4\tACGT", "E\te1\tb+\tb-\t2\t4$\t2\t4$\t2M",
+                                     "E\te2\t*+\tb+\t0\t2\t0\t2\t*", "F\t*\tx+\t0\t2\t0\t2\t*", "U\tu\t* e2"]),
+    dict(ver="gfa1", seg="b", lines=["S\t*\tACGT", "S\tb\t*", "L\t*\t+\tb\t+\t*", "P\t*\t*+,b+\t*"]),
 ]
 HIST_VALUES = ["zz", "zz+", "*", "", "1"]
 HIST_SETTERS = ["set", "attr"]           # line.set(fieldname, value) / line.<fieldname> = value
 # operations after the assignment: rm = gfa.rm(line), disc = line.disconnect(), rmseg = gfa.rm(<seg>),
 # validate = gfa.validate(), lvalidate = line.validate(), str = str(gfa), lstr = str(line), get = line.get(field),
 # back = line.set(field, <the old text of the field>)
+# tails of the histories without assignment: operations on the identifier. delid = line.delete("ID"),
+# unsetid = line.set("ID", None), setid = line.set("ID", "x9"), rename = line.set(<name field>, "x9") (lines with a name)
+HIST_TAILS0 = [["rm", "str", "validate"], ["disc", "str"], ["rmseg", "str", "validate"], ["delid", "str", "rmseg"],
+               ["unsetid", "validate", "disc"], ["setid", "str", "rm"], ["rename", "str", "validate", "rmseg"]]
 HIST_TAILS = [["rm", "str"], ["disc", "str"], ["rmseg", "str"], ["validate", "lvalidate", "str", "lstr"],
               ["get", "back", "rm", "str"], ["str", "rmseg", "validate"]]
 
 
 # removal histories on nested groups (MC_Lex layer nest; the documents are built by TLC): operations as in HIST_TAILS,
 # rmid = gfa.rm(<identifier of the line>)
-NEST_TAILS = [["rmid", "str", "validate"], ["rm", "str"], ["disc", "str", "validate"], ["validate", "lvalidate", "str", "lstr"]]
+# computing calls (made where the class of the line has them): captured_path / captured_segments / captured_edges
+# (O), induced_set (U), to_gfa1_s of the line, gto_gfa1_s / gto_gfa1 = conversion of the whole Gfa
+NEST_TAILS = [["rmid", "str", "validate"], ["rm", "str"], ["disc", "str", "validate"], ["validate", "lvalidate", "str", "lstr"],
+              ["captured_path", "captured_segments", "captured_edges", "induced_set", "to_gfa1_s", "gto_gfa1_s", "gto_gfa1",
+               "str", "rmid"]]
 
 # version queue (MC_Lex layer queue): lines that wait for the version decision, a line that is refused in some of the
 # contexts, a decider.  Which combination is refused for which reason is not stated here: only the result classes count.
 QUEUE = dict(
     q=["L\ta\t+\tb\t+\t*", "P\tp\ta+,b+\t*", "C\ta\t+\tb\t+\t0\t*", "L\ta\t+\tb\t-\t10M\nP\tp\ta+,b-\t10M",
-       "P\tp\ta+,b+\t*\nL\ta\t+\tb\t+\t*", "X\tcustom\n# c\nL\ta\t+\tb\t+\t*"],
+       "P\tp\ta+,b+\t*\nL\ta\t+\tb\t+\t*", "X\tcustom\n# c\nL\ta\t+\tb\t+\t*",
+       "L\ta\t+\tb\t+\t2M\tID:Z:*\nC\ta\t+\tb\t+\t0\t4M\tID:Z:x"],
     bad=["L\ta\t+\tb\t+", "C\ta\t+\tb\t+\tx\t*", "P\tp\tb+,c+\t*", "L\ta\t+\tb\t+\t*", "P\tx\ta+,b+\t*",
          "E\t*\ta+\tb+\t0\t2\t0\t2\t*", "S\ta", "L\ta\t+\tb\t+\t*\txx:i:x", "P\tp\ta+\t*,*", "H\tVN:Z:3.0",
-         "S\ta\t*\tLN:i:x"],
+         "S\ta\t*\tLN:i:x", "L\tb\t+\ta\t+\t2M\tID:Z:x"],
     dec=["S\ta\t*", "S\tx\t*", "S\tp\t*", "H\tVN:Z:1.0", "", "S\ta\t*\nS\tb\t*", "H\tVN:Z:2.0", "S\ta\t1\t*"])
 
 # over-long records (MC_Lex layer long): (character, length of the run that replaces a field)
@@ -575,10 +622,10 @@ def build_catalog(tier, layers, shorter=0, only=None):
                               slots=[dict(line=li, field=fi, alts=[_chars(a) for a in alts], ctx=cx)
                                      for li, fi, alts, cx in t["slots"]]))
     hdr = {k: [_chars(x) for x in v] for k, v in HDR.items()}
-    api = dict(docs=[dict(ver=d["ver"], lines=[[_chars(f) for f in ln.split("\t")] for ln in d["lines"]]) for d in HIST_DOCS],
-               values=[_chars(v) for v in HIST_VALUES], nsetters=len(HIST_SETTERS), tails=HIST_TAILS)
+    api = dict(docs=[dict(ver=d["ver"], assign=1 if di < 2 else 0, lines=[[_chars(f) for f in ln.split("\t")] for ln in d["lines"]]) for di, d in enumerate(HIST_DOCS)],
+               values=[_chars(v) for v in HIST_VALUES], nsetters=len(HIST_SETTERS), tails=HIST_TAILS, tails0=HIST_TAILS0)
     data = dict(ctx=ctx, alph=alph, cat=cat, reps=reps, recs=recs, lines=lines, lreps=lreps, templates=templates,
-                hdr=hdr, api=api, nest=dict(tails=NEST_TAILS), queue={k: [_chars(x) for x in v] for k, v in QUEUE.items()},
+                hdr=hdr, api=api, nest=dict(tails=NEST_TAILS, leadtails=[1, 5]), queue={k: [_chars(x) for x in v] for k, v in QUEUE.items()},
                 longs=[dict(pre=_chars(a), sym=c, n=n, suf=_chars(b)) for a, c, n, b in LONGS],
                 lbytes=_syms(LBYTES),
                 lalph=dict(syms=[_chars(s) for s in _syms(lsy)], n=lnq if q else lnt), docs=docs, variants=variants,
@@ -634,8 +681,9 @@ def generate(tier, layers, name, shorter=0, only=None):
             elif head == "CH":      # history: the case carries everything a replay needs (texts, not indices)
                 d = HIST_DOCS[v[1] - 1]
                 c = dict(kind="h", ctx=0, ver=d["ver"], dia="standard", s="", lines=[], mc="either",
-                         api=["hist", d["ver"], "\n".join(d["lines"]), d["lines"][v[2] - 1], v[3], dec(v[4]),
-                              HIST_SETTERS[v[5] - 1], HIST_TAILS[v[6] - 1], d["seg"]])
+                         api=["hist", d["ver"], "\n".join(d["lines"]), d["lines"][v[2] - 1], v[3], dec(v[4])] +
+                             (["none", HIST_TAILS0[v[6] - 1]] if v[5] == 0 else [HIST_SETTERS[v[5] - 1], HIST_TAILS[v[6] - 1]]) +
+                             [d["seg"]])
                 key = ("h", v[1], v[2], v[3], c["api"][5], v[5], v[6])
             elif head == "CG" and v[2] > 0:     # removal history on a document built by TLC
                 doc = ["\t".join(dec(f) for f in ln) for ln in v[1]]
@@ -766,6 +814,10 @@ class Runner:
                 cons, _ = self.call(g.add_line, ln)
             if cons == "ok":
                 cons, _ = self.call(g.process_line_queue)
+        elif "\r" in text.replace("\r\n", ""):
+            # a lone CR: the line terminator of some platforms for a FILE (Python's universal newlines), a character
+            # of a line for a string: no verdict of the line grammar applies to the file entry point
+            return ["na"]
         else:
             with open(self.path, "w", encoding="utf-8", newline="", errors="surrogateescape") as f:
                 f.write(text)
@@ -940,12 +992,25 @@ class Runner:
                     for op in tail:
                         f = {"rm": lambda: g.rm(ln), "disc": ln.disconnect, "rmseg": lambda: g.rm(seg),
                              "rmid": lambda: g.rm(fields[1] if len(fields) > 1 else ""),
+                             "delid": lambda: ln.delete("ID"), "unsetid": lambda: ln.set("ID", None),
+                             "setid": lambda: ln.set("ID", "x9"),
+                             "rename": (lambda: ln.set(names[0], "x9")) if names else None,
+                             "gto_gfa1_s": g.to_gfa1_s, "gto_gfa1": g.to_gfa1,
                              "validate": g.validate, "lvalidate": ln.validate, "get": lambda: ln.get(name),
                              "back": lambda: ln.set(name, old)}.get(op)
-                        if op == "str":
+                        if op in ("captured_path", "captured_segments", "captured_edges", "induced_set", "to_gfa1_s"):
+                            if not hasattr(type(ln), op):       # not an operation of this record type
+                                r.append("na")
+                            elif op == "to_gfa1_s":
+                                r.append(self.call(ln.to_gfa1_s)[0])
+                            else:
+                                r.append(self.call(getattr, ln, op)[0])
+                        elif op == "str":
                             r.append(self.written(g))
                         elif op == "lstr":
                             r.append(self.written(ln))
+                        elif op == "rename" and f is None:
+                            r.append("na")
                         elif f is None:
                             raise MachineryError("unknown history operation " + op)
                         else:
@@ -1030,7 +1095,11 @@ def run_cases(cases, levels, procs=None):
     heavy = [c for c in cases if c["kind"] in ("t", "a")]
     light = [c for c in cases if c["kind"] not in ("t", "a", "h")]
     hist = [c for c in cases if c["kind"] == "h"]
-    chunks = [(heavy[i:i + 20], levels) for i in range(0, len(heavy), 20)] + \
+    # the slowest cases (over-long fields: some of gfapy's patterns need quadratic time on them) are spread over the
+    # chunks and started first, so that no worker ends up with all of them
+    heavy.sort(key=lambda c: -len(c.get("s") or ""))
+    nh = max(1, (len(heavy) + 19) // 20)
+    chunks = [(heavy[i::nh], levels) for i in range(nh)] + \
              [(hist[i:i + 100], levels) for i in range(0, len(hist), 100)] + \
              [(light[i:i + 500], levels) for i in range(0, len(light), 500)]
     if procs <= 1 or len(chunks) <= 1:
@@ -1321,6 +1390,11 @@ def selftest():
                     lines=[], lv=[1], res=[res])
     def lcase(i, fields, res):
         return dict(id=i, kind="l", ctx=0, ver="gfa1", dia="standard", s="", lines=[fields], lv=[1], res=[res])
+    def dcase(i, lines, res):
+        return dict(id=i, kind="d", ctx=0, ver="gfa1", dia="standard", s="", lines=lines, lv=[1] * len(res), res=res)
+    def ring(closing, overlaps):
+        return [["S", "a", "*"], ["S", "b", "*"], ["S", "c", "*"], ["L", "a", "+", "b", "+", "1M"], ["L", "b", "+", "c", "+", "2M"],
+                ["L", "c", "+", "a", "+", closing], ["P", "p", "a+,b+,c+", overlaps]]
     ok = ["ok", "ok", "ok", "ok"]
     refused = ["Error", "na", "na", "na"]
     doc = [["S", "A", "ACGT", "LN:i:4"], ["S", "B", "*"], ["L", "A", "+", "B", "+", "*"]]
@@ -1349,6 +1423,12 @@ def selftest():
         lcase(22, ["P", "p1", "a+", "*,1M"], ok),
         dict(id=23, kind="d", ctx=0, ver="gfa1", dia="standard", s="", lv=[1, 3], res=[ok[:2] + ["na", "ok"]] * 2,
              lines=[["S", "A", "*"], ["S", "B", "*"], ["L", "A", "+", "B", "+", "*"], ["P", "p", "A+,B+", "*,*,*"]]),
+        # circular path: the last overlap belongs to the junction back to the first segment (Lex!VPathLinks)
+        dcase(10, ring("3M", "1M,2M,3M"), [ok[:2] + ["na", "ok"]]),                    # genuine: valid, accepted
+        dcase(25, ring("3M", "1M,2M,3M"), [["NotFoundError", "na", "na", "na"]]),      # valid circular path refused
+        dcase(26, ring("2M", "1M,2M,3M"), [ok[:2] + ["na", "ok"]]),                    # closing link states another overlap: kept
+        dcase(27, ring("3M", "1M,2M,2M"), [ok[:2] + ["na", "ok"]]),
+        dcase(28, ring("3M", "1M,2M,3M")[:5] + ring("3M", "1M,2M,3M")[6:], [["ok", "ok", "na", "ok"]]),   # no closing link at all
         # API histories: one row per level, one result class per call
         dict(id=9, kind="h", ctx=0, ver="gfa2", dia="standard", s="", lines=[], lv=[0, 3],
              res=[["ok", "ok", "ok", "ok", "marker"], ["ok", "ok", "Error", "ok", "ok"]]),
@@ -1359,7 +1439,8 @@ def selftest():
             14: {"C04.written-invalid"}, 15: {"C04.accepted-invalid"}, 16: {"C07.foreign"}, 17: {"C07.foreign"},
             18: {"C07.foreign", "C04.validate-disagrees"}, 19: {"C07.foreign"},
             20: {"C04.accepted-invalid"}, 21: {"C04.accepted-invalid"}, 22: {"C04.accepted-invalid"},
-            23: {"C04.accepted-invalid"}, 24: {"C07.foreign"}}
+            23: {"C04.accepted-invalid"}, 24: {"C07.foreign"}, 25: {"C04.rejected-valid"}, 26: {"C04.accepted-invalid"},
+            27: {"C04.accepted-invalid"}, 28: {"C04.accepted-invalid"}}
     rejects, _ = validate(cases, "lex-selftest", nshards=1)
     got = {cid: {cl for _, cl in bad} for cid, (exp, bad) in rejects.items()}
     if got != want:
